@@ -201,7 +201,16 @@ pub fn seq_id() -> impl Strategy<Value = Option<u8>> {
 /// short payload whose content identifies it (so that a delivered concatenation shows which
 /// fragments were used, and in what order)
 pub fn token_payload() -> impl Strategy<Value = Vec<u8>> {
-    alphabet_string(6)
+    // one token in eight carries a byte outside the armouring alphabet: the sentence is still well-formed
+    // (C07: "arbitrary non-comma payload bytes"), only decoding the payload it ends up in fails
+    prop_oneof![
+        7 => alphabet_string(6),
+        1 => (alphabet_string(5), prop::sample::select(vec![b'X', b'x', b'_', b'~', b' ', b'/', 0x80u8, 0xffu8]), any::<u8>()).prop_map(|(mut t, junk, at)| {
+            let i = (at as usize * (t.len() + 1)) >> 8;
+            t.insert(i, junk);
+            t
+        }),
+    ]
 }
 
 pub fn malformed_line() -> impl Strategy<Value = Vec<u8>> {
@@ -254,9 +263,9 @@ pub fn noise_ev() -> impl Strategy<Value = Ev> {
 
 /// any validly numbered fragment (1 <= k <= n, n >= 2), ids from a small pool
 pub fn any_fragment() -> impl Strategy<Value = Ev> {
-    (2u8..=9, any::<u16>(), seq_id(), token_payload()).prop_map(|(n, ksel, id, payload)| {
+    (2u8..=9, any::<u16>(), seq_id(), token_payload(), any::<bool>()).prop_map(|(n, ksel, id, payload, decode)| {
         let k = 1 + ((ksel as u32 * n as u32) >> 16) as u8;
-        Ev::Frag { n, k, id, payload, fill: 0, decode: false }
+        Ev::Frag { n, k, id, payload, fill: 0, decode }
     })
 }
 
@@ -264,12 +273,14 @@ pub fn any_fragment() -> impl Strategy<Value = Ev> {
 /// interleaving, id reuse, mixed with noise.
 pub fn adversarial_events(max_len: usize) -> impl Strategy<Value = Vec<Ev>> {
     // a "script" element is either one loose event or a whole group played with defects
-    let group = (2u8..=6, seq_id(), proptest::collection::vec(token_payload(), 6), proptest::collection::vec(0u8..10, 6), any::<bool>()).prop_map(
-        |(n, id, toks, defects, decode_last)| {
+    let group = (2u8..=6, seq_id(), proptest::collection::vec(token_payload(), 6), proptest::collection::vec(0u8..10, 6), any::<bool>(), any::<u8>()).prop_map(
+        |(n, id, toks, defects, decode_last, decode_mid)| {
             let mut evs = Vec::new();
             for k in 1..=n {
                 let payload = toks[(k - 1) as usize % toks.len()].clone();
-                let ev = Ev::Frag { n, k, id, payload, fill: 0, decode: k == n && decode_last };
+                // callers that want messages pass decode = true for every line, not only for the last of a group
+                let decode = if k == n { decode_last } else { (decode_mid >> (k % 8)) & 1 == 1 };
+                let ev = Ev::Frag { n, k, id, payload, fill: 0, decode };
                 match defects[(k - 1) as usize % defects.len()] {
                     0 => {} // lost
                     3 => {
@@ -329,6 +340,13 @@ pub fn inorder_group_history() -> impl Strategy<Value = Input> {
         2 => message_chars(LenMode::Any),
         4 => (alphabet_string(120), 0u8..6),
         2 => (alphabet_string(380), 0u8..6),
+        // one byte outside the armouring alphabet somewhere: every fragment is still a well-formed sentence and
+        // reassembly is unaffected; only decoding the completed payload fails
+        1 => (alphabet_string(60), 0u8..6, any::<u16>(), prop::sample::select(vec![b'X', b'x', b'_', b'~', b' ', 0x80u8])).prop_map(|(mut p, f, at, junk)| {
+            let i = (at as usize * p.len()) >> 16;
+            p[i] = junk;
+            (p, f)
+        }),
         // longer than the no-allocator build can hold (it must reject; std and alloc must not care)
         1 => (alphabet_string(1200), 0u8..6).prop_map(|(mut p, f)| {
             while p.len() < 390 {
